@@ -33,7 +33,7 @@ ASSUMPTIONS = [
 ]
 
 VOCAB = ["x", "@", "7", "0", "1", "-3", "0.5", "1.5", "2e-1", "99999", "<del>", "1e999",
-         "18446744073709551616", "0.5x", "@2", ".5", "1e", "3@", "-1e-3", "+2"]
+         "18446744073709551616", "0.5x", "@2", ".5", "1e", "3@", "-1e-3", "+2", "0+0+0+0+0+0", "1-1+1"]
 
 
 def hexf(x):
@@ -174,6 +174,9 @@ def one_case(rng, kind, sweep):
 def gen(rng, tier):
     n = {"quick": 320, "thorough": 1600, "search": 600}[tier]
     out = ["digits %s %s" % (hexf(0.1234567), hexf(0.1234568))]
+    for i in range(n // 40 + 2):
+        S = rng.choice([1, 2, 3]); A = rng.choice([2, 3])
+        out.append(" ".join(["polcopy", str(S), str(A)] + g_pol(rng, S, A, rng.random() < 0.5) + g_pol(rng, S, A, False)))
     for i in range(n):
         kind = KINDS[i % len(KINDS)] if rng.random() < 0.7 else rng.choice(KINDS)
         out.append(one_case(rng, kind, rng.random() < 0.25))
